@@ -574,8 +574,10 @@ class ElementList(MutableSequence):
         del self.list[index]
 
     def __setitem__(self, index, value):
-        child_name = self.list[index].name
-        self.set(child_name, value, index)
+        child = self.list[index]
+        # `set` addresses a repetition by its position among the children of the same name
+        by_name_index = next(i for i, c in enumerate(self.indexes[child.name]) if c is child)
+        self.set(child.name, value, by_name_index)
 
     def __str__(self):
         return str(self.list)
